@@ -94,7 +94,7 @@ def routerWriteTwo : List String := [
   "...if err != nil",
   "....os.Exit(1)"]
 
-/-- … and with fix F46: one `Write` of body + "\n" (model parameter `Cfg.oneWrite`) -/
+/-- … and with fix F46 (/repo 85f4c48): one `Write` of body + "\n" (model parameter `Cfg.oneWrite`) -/
 def routerWriteOne : List String := [
   "...record := make([]byte, 0, len(m.Body)+1)",
   "...record = append(record, m.Body...)",
@@ -109,14 +109,17 @@ def expected_router_fixed : List String := expected_router.take 30 ++ routerWrit
 /-- the replaced statements are exactly the two-write block -/
 theorem expected_router_write_block : (expected_router.drop 30).take 6 = routerWriteTwo := by decide
 
-/-- **`router()` has one of the two known shapes** (tree before / with fix F46); which one the model runs with
-(`Cfg.oneWrite`) is probed on the real `router()` by the harness (`vfE8ProbeOneWrite`) and cross-checked against
-`routerOneWrite` by `props/C19.py`. Any other edit of `router()` breaks this. -/
-theorem router_eq :
-    Nsq.Gen.ToolsToFile.router = expected_router ∨ Nsq.Gen.ToolsToFile.router = expected_router_fixed := by decide
+/-- **`router()` has the shape of fix F46** (/repo 85f4c48, committed: one `Write` of body + "\n"; audit B12). The
+two-write shape `expected_router` (`Props.C19Lines.shared_file_unfixed_witness`) is no longer accepted: with F46
+reverted this tie breaks, the probe `vfE8ProbeOneWrite` on the real `router()` disagrees with the expected value, and the
+two-routers scenario reports `two-routers-one-file` (listed `fixed`) as a VIOLATION. Any other edit of `router()`
+breaks this too. -/
+theorem router_eq : Nsq.Gen.ToolsToFile.router = expected_router_fixed := by decide
 
-/-- the shape of the current tree -/
+/-- the shape of the current tree (model parameter `Cfg.oneWrite`) -/
 def routerOneWrite : Bool := decide (Nsq.Gen.ToolsToFile.router = expected_router_fixed)
+
+theorem tree_one_write : routerOneWrite = true := by decide
 
 /-- the two shapes differ only in the number of `Write` calls per record: the effect calls in source order are
 write(s) (error → exit), `Sync()` (error → exit), `Finish()` -/
@@ -339,15 +342,19 @@ def expected_sealTornTail : List String := [
   "f.filesize += int64(n)",
   "return err"]
 
-/-- **`updateFile()` has one of the two known shapes** (tree before / with fix F47; with the fix `sealTornTail` is the
-frozen function above). Which one the model runs with (`Cfg.sealsTail`) is probed on the real `updateFile()`
-(`vfE8ProbeSealsTail`) and cross-checked against `updateFileSeals` by `props/C19.py`. -/
+/-- **`updateFile()` has the shape of fix F47** (/repo efaf20c, committed; `sealTornTail` is the frozen function above;
+audit B12). The shape before it (`expected_updateFile`, no `sealTornTail`: `Props.C19Lines.fin_owns_line_full_false`) is
+no longer accepted: with F47 reverted this tie breaks, the probe `vfE8ProbeSealsTail` on the real `updateFile()`
+disagrees with the expected value, and the torn-tail scenarios report `torn-tail-append` (listed `fixed`) as a
+VIOLATION. -/
 theorem updateFile_eq :
-    (Nsq.Gen.ToolsToFile.updateFile = expected_updateFile ∧ Nsq.Gen.ToolsToFile.sealTornTail = []) ∨
-    (Nsq.Gen.ToolsToFile.updateFile = expected_updateFile_fixed ∧
-      Nsq.Gen.ToolsToFile.sealTornTail = expected_sealTornTail) := by decide
+    Nsq.Gen.ToolsToFile.updateFile = expected_updateFile_fixed ∧
+    Nsq.Gen.ToolsToFile.sealTornTail = expected_sealTornTail := by decide
 
+/-- the shape of the current tree (model parameter `Cfg.sealsTail`) -/
 def updateFileSeals : Bool := decide (Nsq.Gen.ToolsToFile.updateFile = expected_updateFile_fixed)
+
+theorem tree_seals_tail : updateFileSeals = true := by decide
 
 /-- in both shapes: the O_EXCL / O_APPEND choice, the open, the size check; the seal (if any) comes after the
 rotate-size `continue` and before the `break` — the order `Model.ToFile.openNew` uses -/
@@ -410,7 +417,7 @@ theorem router_sync_before_finish :
     ∧ pos "....m.Finish()" router < router.length
     ∧ (router.drop (pos "...err := f.Sync()" router)).take 4 =
         ["...err := f.Sync()", "...if err != nil", "....os.Exit(1)", "...for pos > 0"] := by
-  rcases router_eq with h | h <;> rw [h] <;> decide
+  rw [router_eq]; decide
 
 /-- in `Sync`: gzip member close, then fsync (both branches fsync) -/
 theorem sync_order :
